@@ -229,3 +229,30 @@ Proof.
   { cbn [wf_unit wf_stmt]. split; [e_arith|]. split; [unfold fits; vm_compute; reflexivity|]. split; [e_table|]. split; [e_gap|e_rows]. }
   apply Forall_nil.
 Qed.
+
+(* ---------------------------------------------------------------------------------------------------------------
+   Tie to the source.  The functions *_g below are generated from /repo on every run by harness/cmd/gotrans
+   (gen/Trans*.v); the theorems say that, for ALL inputs, they compute what the hand-written model functions used in
+   the statements above compute (res_sim: the same value, or both an error, or both a panic), under the premises Go's
+   types provide.  A change to one of these Go functions that alters its behaviour makes the proof below fail. *)
+From GB Require Import Model.Header Model.Events Model.Rbr Model.Cell Base.GoSem Proofs.TransTactics Proofs.TransEquivCell Proofs.TransEquivMeta Proofs.TransEquivBitmap Proofs.TransEquivHeader Proofs.TransEquivEvents Proofs.TransEquivRbr.
+From GBGen Require Import TransCell TransMeta TransBitmap TransHeader TransEvents TransRbr.
+Open Scope Z_scope.
+
+Theorem C01_tie_IsValid : forall ev, res_sim (binlogEvent_IsValid_g ev) (is_valid ev).
+Proof. exact binlogEvent_IsValid_equiv. Qed.
+Print Assumptions C01_tie_IsValid.
+
+Theorem C01_tie_TableMap : forall fuel ev f,
+  wf_bytes ev -> hlen_byte f -> len ev < 2 ^ 62 -> (length ev < fuel)%nat ->
+  res_sim (binlogEvent_TableMap_g fuel ev (Format_of f)) (res_map TableMap_of (ev_table_map f ev)).
+Proof. exact binlogEvent_TableMap_equiv. Qed.
+Print Assumptions C01_tie_TableMap.
+
+Theorem C01_tie_Rows : forall fuel ev f tm,
+  wf_bytes ev -> hlen_byte f -> len ev < 2 ^ 61 -> wf_bytes (tm_types tm) -> meta_ok tm ->
+  rows_event ev -> (17 * length ev + 2 < fuel)%nat ->
+  res_sim (binlogEvent_Rows_g fuel ev (Format_of f) (TableMap_of tm)) (res_map Rows_of (ev_rows f tm ev)).
+Proof. exact binlogEvent_Rows_equiv. Qed.
+Print Assumptions C01_tie_Rows.
+
